@@ -686,6 +686,15 @@ func (c *client) loopWrite() {
 		case Continue:
 		case Stop:
 			verifhook.At2("client.loopWrite.filtered", c, req)
+			// The filter has answered the request, but the requests encoded
+			// before it may still sit in the buffer, they were not flushed
+			// because this one was queued behind them.
+			if len(c.pendingReqs) == 0 {
+				if err = c.enc.Flush(); err != nil {
+					c.logger.Warnf("loop write exit: %v", err)
+					return
+				}
+			}
 			continue
 		}
 
